@@ -137,3 +137,10 @@ package sql
 //@ func NewFloatVal [C13]
 //@   modifies nothing
 //@   ensures typeis(result, "*FloatVal") && unbox(result, "*FloatVal").val == f
+
+//@ iface (ISelect).GetSelect()
+//@   modifies nothing
+//@ iface (Aliased).GetAlias()
+//@   modifies nothing
+//@ iface (Aliased).GetExpr()
+//@   modifies nothing
